@@ -84,7 +84,7 @@ var longDigits = regexp.MustCompile(`[0-9]{4,}`)
 
 func genC11(t *rapid.T) Script {
 	var sc Script
-	sc.Backoff = BackoffCfg{InitialNs: int64(1 + stats.Pick(t, 5, "initms")) * 1e6, Multiplier: 1, Jitter: 0.5}
+	sc.Backoff = BackoffCfg{InitialNs: int64(1+stats.Pick(t, 5, "initms")) * 1e6, Multiplier: 1, Jitter: 0.5}
 	sc.Backoff.MaxRetries = stats.From(t, []int{-1, -1, 0, 1, 2, 3}, "maxretries")
 	n := 1 + stats.Pick(t, 6, "nattempts")
 	for i := 0; i < n; i++ {
